@@ -187,6 +187,9 @@ package rueidis
 //@   option noframe=assumed: the recursive call writes the elements of the array this call has just allocated (reached through m.values()); the frame `only *m and fresh memory` is stated, not proved
 //@   ensures [C17 cursor-advances] result1 == nil ==> (old(c) + 9 <= result0 && result0 <= len(buf))
 //@   ensures [C17 truncated-is-error] len(buf) < old(c) + 9 ==> result1 != nil
+//@   ensures [C17 scalar-node-decodes] (old(c) + 9 <= len(buf) && (buf[old(c)] == ':' || buf[old(c)] == '_' || buf[old(c)] == '#')) ==> (result1 == nil && result0 == old(c) + 9 && m.typ == buf[old(c)] && m.intlen == int64(be64(buf[old(c)+1:old(c)+9])))
+//@   ensures [C17 string-node-decodes] (old(c) + 9 <= len(buf) && buf[old(c)] != ':' && buf[old(c)] != '_' && buf[old(c)] != '#' && buf[old(c)] != '*' && buf[old(c)] != '%' && buf[old(c)] != '~' && 0 <= int64(be64(buf[old(c)+1:old(c)+9])) && int64(be64(buf[old(c)+1:old(c)+9])) <= len(buf) - old(c) - 9) ==> (result1 == nil && result0 == old(c) + 9 + int64(be64(buf[old(c)+1:old(c)+9])) && m.typ == buf[old(c)] && m.intlen == int64(be64(buf[old(c)+1:old(c)+9])))
+//@   ensures [C17 string-node-truncated-is-error] (old(c) + 9 <= len(buf) && buf[old(c)] != ':' && buf[old(c)] != '_' && buf[old(c)] != '#' && buf[old(c)] != '*' && buf[old(c)] != '%' && buf[old(c)] != '~' && int64(be64(buf[old(c)+1:old(c)+9])) > len(buf) - old(c) - 9) ==> result1 != nil
 //@   loop 0: invariant [C17] c >= old(c) + 9 && c <= len(buf) && m.array != nil && m.intlen == size && size >= 0 && size < 140737488355328 && rangeindex >= -1
 
 //@ func RedisMessage.CacheUnmarshalView
